@@ -332,7 +332,9 @@ def main():
                     problem = ("protocol", f"rust={r[:200]} model={m[:200]}")
                 elif r != mo:
                     problem = ("disagreement", f"rust={r[:300]} model={mo[:300]}")
-                elif verdict.startswith("VIOLATION"):
+                elif verdict.startswith("VIOLATION") and not any(pat in verdict for pat in st.get("other_property_verdicts", [])):
+                    # (a stream shared by several properties carries each one's verdicts; those
+                    # listed under other_property_verdicts are judged by the other property's check)
                     problem = ("oracle", verdict[:300])
                 if problem is None:
                     continue
